@@ -6,17 +6,17 @@ import (
 
 // Anchors of the scan engine (package extractor/filesystem), resolved by role first.
 type engine struct {
-	handleFile, postHandleFile   *ssa.Function // callbacks given to internal.WalkDirUnsorted
-	runExtractor                 *ssa.Function // function containing the Extractor.Extract invoke
-	extractCall                  *ssa.Call
-	shouldSkipDir                *ssa.Function
-	walkIndividual, RunFS, Run   *ssa.Function
-	runOnScanRoot, UpdateRoot    *ssa.Function
-	walkRec, WalkDir             *ssa.Function // internal.walkDirUnsorted / WalkDirUnsorted
-	walkCalls                    []*ssa.Call   // calls of WalkDirUnsorted in extractor/filesystem
-	dispatchCall                 *ssa.Call     // call of runExtractor inside handleFile
-	lazyStat                     *ssa.Function
-	fileSize                     *ssa.Function
+	handleFile, postHandleFile *ssa.Function // callbacks given to internal.WalkDirUnsorted
+	runExtractor               *ssa.Function // function containing the Extractor.Extract invoke
+	extractCall                *ssa.Call
+	shouldSkipDir              *ssa.Function
+	walkIndividual, RunFS, Run *ssa.Function
+	runOnScanRoot, UpdateRoot  *ssa.Function
+	walkRec, WalkDir           *ssa.Function // internal.walkDirUnsorted / WalkDirUnsorted
+	walkCalls                  []*ssa.Call   // calls of WalkDirUnsorted in extractor/filesystem
+	dispatchCall               *ssa.Call     // call of runExtractor inside handleFile
+	lazyStat                   *ssa.Function
+	fileSize                   *ssa.Function
 }
 
 const fsPkg = "extractor/filesystem"
